@@ -96,6 +96,18 @@ def model_outcome(bp, assign, present, completion, cards=None):
                 got = denote(res)
                 if not val_eq(got, expected, ty, {}):
                     return (name + "-value", "expected %r got %r" % (expected, got))
+            # the multi-formula entry points
+            try:
+                vs = model.get_values([f], model_completion=completion)
+                if list(vs.keys()) != [f] or not val_eq(denote(vs[f]), expected, ty, {}):
+                    return ("get_values-value", "expected %r got %r" % (expected, vs))
+                if not is_arr(ty):
+                    pvs = model.get_py_values([f], model_completion=completion)
+                    if not pyvalue_matches(pvs[f], ty, expected):
+                        return ("get_py_values-value", "expected %r got %r" % (expected, pvs))
+            except Exception as e:
+                if not uncompletable:
+                    return ("get_values-raised", "%s: %s" % (type(e).__name__, e))
             if not is_arr(ty):
                 try:
                     pv = model.get_py_value(f, model_completion=completion)
@@ -119,6 +131,25 @@ def model_outcome(bp, assign, present, completion, cards=None):
             try:
                 res = model.get_value(f, model_completion=False)
             except Exception:
+                # the multi-formula entry point must not complete either
+                try:
+                    vs = model.get_values([f], model_completion=False)
+                except Exception:
+                    return None
+                res = vs[f]
+                if res.is_constant():
+                    got = denote(res)
+                    for flip in range(3):
+                        alt = dict(full)
+                        for n in missing:
+                            alt[n] = _other_value(syms[n], flip)
+                        try:
+                            ev = Evaluator(alt, {}).eval(b0)
+                        except Unconstrained:
+                            continue
+                        if not val_eq(got, ev, ty, {}):
+                            return ("get_values-nocompletion-value", "get_value raises but get_values returned %r; completion %r gives %r" % (
+                                got, {n: alt[n] for n in missing}, ev))
                 return None
             if not res.is_constant():
                 return ("nocompletion-nonconstant", str(res))
